@@ -316,7 +316,7 @@ var _ FactStoreWithRemove = TeeingStore{NewSimpleInMemoryStore(), NewSimpleInMem
 // Add implementation that adds to the output store.
 func (s TeeingStore) Add(atom ast.Atom) bool {
 	if s.base.Contains(atom) {
-		return true
+		return false
 	}
 	return s.Out.Add(atom)
 }
